@@ -15,6 +15,7 @@ import PrqlModel.Drv.Window
 import PrqlModel.Drv.Lit
 import PrqlModel.Drv.Names
 import PrqlModel.Drv.Text
+import PrqlModel.Drv.Order
 namespace Drv
 
 def handlers : List (List String → Option String) := [
@@ -28,7 +29,8 @@ def handlers : List (List String → Option String) := [
   Drv.Window.handle,
   Drv.Lit.handle,
   Drv.Names.handle,
-  Drv.Text.handle
+  Drv.Text.handle,
+  Drv.Order.handle
 ]
 
 def handle (fields : List String) : String :=
